@@ -6,12 +6,15 @@ from the property text), cntb (count of entries per bin, recursive).  Lemmas by 
 """
 import z3
 from .base import *
+from . import errlib
 
-FILES = ["kafe2/fit/histogram/container.py", "kafe2/fit/indexed/container.py", "kafe2/fit/_base/container.py"]
+FILES = ["kafe2/fit/histogram/container.py", "kafe2/fit/indexed/container.py", "kafe2/fit/_base/container.py"] + errlib.ERR_FILES
 SCHEMA = {
-    "HistContainer": {"_data": SEQ, "_bin_edges": SEQ, "_processed_entries": SEQ, "_unprocessed_entries": SEQ, "_manual_heights": BOOL},
+    "HistContainer": {"_data": SEQ, "_bin_edges": SEQ, "_processed_entries": SEQ, "_unprocessed_entries": SEQ, "_manual_heights": BOOL,
+                      "_error_dicts": NAMEMAP("ErrEntry"), "_total_error": REF("MatrixGaussianError")},
     "__pylists__": {("HistContainer", "_processed_entries"), ("HistContainer", "_unprocessed_entries")},
 }
+SCHEMA.update(errlib.ERR_SCHEMA)
 META = {
     "level": "proof",
     "trusted_base": [
@@ -256,8 +259,13 @@ def u_raw_data(root):
 # ------------------------------------------------------------------ mutators
 def u_fill(root, scalar):
     eng = mk_engine(root)
+    errlib.c_reference_setter(eng)
     c = Contract("HistContainer", "fill")
     c.requires.append(lambda vw: inv_H(vw, vw.pre))
+    ESlen = H("_error_dicts", "namemap", "len")[me]
+    c.requires.append(lambda vw: ESlen >= 0)
+    # the loop that re-points the uncertainty sources touches only the source objects: histogram state is framed
+    c.loops[0] = lambda e, s: z3.And(0 <= s.locals["#i0"].e, s.locals["#i0"].e <= ESlen)
     ndim = z3.Int("entries_ndim")
 
     def init(e, st, me_):
